@@ -202,7 +202,9 @@ pub enum Ev {
     RefForget { run: usize, id: usize },
     StreamDrop { run: usize },
     Release { run: usize, id: usize },
-    Interrupt { run: usize, delivered: bool },
+    /// exact = every function handed out before the signal had been invoked, so that
+    /// "functions started after the signal" can be counted from closure calls
+    Interrupt { run: usize, delivered: bool, exact: bool },
     SenderDrop { run: usize },
     Abort { run: usize },
     /// an FnRef of an earlier, dropped stream is dropped during this run
@@ -680,7 +682,14 @@ impl World {
                     if delivered {
                         self.runs.borrow_mut()[run].intr_delivered = true;
                     }
-                    self.push(Ev::Interrupt { run, delivered });
+                    let exact = {
+                        let runs = self.runs.borrow();
+                        runs[run].family_counts_calls_exactly || (runs[run].settled && self.polling.get().is_none())
+                    };
+                    if !exact {
+                        self.fire("interrupt_while_hand_outs_may_be_unstarted");
+                    }
+                    self.push(Ev::Interrupt { run, delivered, exact });
                 }
                 #[cfg(not(feature = "interruptible"))]
                 {
